@@ -5,6 +5,7 @@ import (
 	"io"
 	"log/slog"
 	"os"
+	"runtime/pprof"
 	"time"
 
 	"github.com/glebziz/fs_db/verifh/checks"
@@ -12,10 +13,10 @@ import (
 	"github.com/glebziz/fs_db/verifh/crash"
 	"github.com/glebziz/fs_db/verifh/dbh"
 	"github.com/glebziz/fs_db/verifh/enum"
-	"github.com/glebziz/fs_db/verifh/seq"
-	"github.com/glebziz/fs_db/verifh/small"
 	"github.com/glebziz/fs_db/verifh/hk"
 	"github.com/glebziz/fs_db/verifh/litmus"
+	"github.com/glebziz/fs_db/verifh/seq"
+	"github.com/glebziz/fs_db/verifh/small"
 )
 
 func main() {
@@ -25,6 +26,13 @@ func main() {
 	if len(os.Args) < 2 {
 		fmt.Fprintln(os.Stderr, "usage: verifh selfcheck | check <ID> quick|thorough | worker | replay <file>")
 		os.Exit(2)
+	}
+	if dir := os.Getenv("VERIF_CPUPROFILE"); dir != "" {
+		// debugging aid: one CPU profile per process
+		if f, err := os.Create(fmt.Sprintf("%s/%s-%d.prof", dir, os.Args[1], os.Getpid())); err == nil {
+			pprof.StartCPUProfile(f)
+			defer pprof.StopCPUProfile()
+		}
 	}
 	switch os.Args[1] {
 	case "selfcheck":
